@@ -25,7 +25,7 @@ import (
 
 func init() {
 	register("C04", "paired marked/unmarked runs of every operation method (and NotEqual, <=, >=), the marks API, SetVal/ListVal/MapVal, Function.Call with spy callbacks, "+
-		"convert.Convert and a sample of stdlib functions. Small scope enumerated: per-family operand menus (known, unknown, refined unknown, null, DynamicVal; "+
+		"convert.Convert, a table of well-typed stdlib calls and every exported stdlib function on arguments drawn from its parameter types. Small scope enumerated: per-family operand menus (known, unknown, refined unknown, null, DynamicVal; "+
 		"collections and structures of up to three nodes) x every assignment of {no mark, {m1}, {m2,m3}} to every node of every operand; plus generated operands of "+
 		"depth <= 3 with random marks at every depth. non-trivial = at least one mark present on some operand; distinct = distinct canonical wire strings of (op, operands)", runC04)
 }
@@ -977,8 +977,9 @@ func c04Ctors(ctx *Ctx, elems []cty.Value) {
 func runC04(ctx *Ctx) {
 	pool := c04Exhaustive(ctx)
 	ctx.res.Exhaustive = true
-	ctx.res.Scope = "operation methods: per-family operand menus x every assignment of {none,{m1},{m2,m3}} to the nodes of each operand (<= 3 nodes; single-node and all-node placements beyond); " +
-		"marks API and constructors on every value of that pool; Function.Call: 0-2 parameters +/- variadic x AllowMarked/AllowUnknown/type x an 8-value argument menu x 9 callback behaviours"
+	ctx.res.Scope = "operation methods: per-family operand menus x every assignment of {none,{m1},{m2,m3}} to the nodes of each operand (<= 3 nodes; single-node and all-node placements beyond) — complete in both tiers; " +
+		"marks API and constructors on every value of that pool; convert: the same pool x a menu of target types; Function.Call: 0-2 parameters +/- variadic x AllowMarked/AllowUnknown/type x an 8-value argument menu x 10 callback behaviours " +
+		"(thorough tier: the whole product; quick tier: every 7th combination, offset by the seed)"
 	// marks API and constructors on the whole enumerated pool
 	for i, v := range pool {
 		c04API(ctx, v, pool[(i*7+3)%len(pool)])
